@@ -2074,6 +2074,10 @@ class _ChunkedTransferDecoder:
 
         if eolIndex == -1:
             # Still no end of network line marker found.
+            if self._buffer == b"\r":
+                # This may be the first half of the blank line that ends the
+                # trailers, which is not counted against the limit.
+                return False
             #
             # Check if we've run up against the trailer size limit: if the next
             # read contains the terminating CRLF then we'll have this many bytes
